@@ -60,7 +60,7 @@ func (t Type) IsValidAsEndInRangeLiteral() bool {
 		PUBLIC_CONSTANT, PRIVATE_CONSTANT, INSTANCE_VARIABLE,
 		RAW_STRING, STRING_BEG, CHAR_LITERAL, RAW_CHAR_LITERAL, FLOAT, FLOAT32, FLOAT64,
 		NIL, FALSE, TRUE, LOOP, ENUM,
-		VAR, VAL, CONST, DO, SELF, SUPER, SWITCH, SELECT, MINUS, PLUS:
+		VAR, VAL, CONST, DO, SELF, SUPER, SWITCH, SELECT, MINUS, PLUS, LBITSHIFT:
 		return true
 	}
 
